@@ -466,7 +466,7 @@ def merge_to_number(desired_chunks, max_number):
         return desired_chunks
 
     distinct = set(desired_chunks)
-    if len(distinct) == 1:
+    if len(distinct) == 1 and 0 not in distinct:
         # Fast path for homogeneous target, also ensuring a regular result
         w = distinct.pop()
         n = len(desired_chunks)
@@ -487,6 +487,8 @@ def merge_to_number(desired_chunks, max_number):
     ]
     heapq.heapify(heap)
 
+    # ``None`` marks a chunk that was merged into its right neighbour (a
+    # zero-length chunk is a chunk like any other and must not be taken for one)
     chunks = list(desired_chunks)
 
     while nmerges > 0:
@@ -494,9 +496,9 @@ def merge_to_number(desired_chunks, max_number):
         width, i, j = heapq.heappop(heap)
         # If interval was made invalid by another merge, recompute
         # it, re-insert it and retry.
-        if chunks[j] == 0:
+        if chunks[j] is None:
             j += 1
-            while chunks[j] == 0:
+            while chunks[j] is None:
                 j += 1
             heapq.heappush(heap, (chunks[i] + chunks[j], i, j))
             continue
@@ -504,12 +506,12 @@ def merge_to_number(desired_chunks, max_number):
             heapq.heappush(heap, (chunks[i] + chunks[j], i, j))
             continue
         # Merge
-        assert chunks[i] != 0
-        chunks[i] = 0  # mark deleted
+        assert chunks[i] is not None
+        chunks[i] = None  # mark deleted
         chunks[j] = width
         nmerges -= 1
 
-    return tuple(filter(None, chunks))
+    return tuple(c for c in chunks if c is not None)
 
 
 def find_merge_rechunk(old_chunks, new_chunks, block_size_limit):
